@@ -151,6 +151,15 @@ Theorem C19_runave_resumed_is_uninterrupted : forall (T : Type) (O : NumOps T) (
 Proof. exact runave_resumed_is_uninterrupted. Qed.
 Print Assumptions C19_runave_resumed_is_uninterrupted.
 
+(* the resumed job may use a SHORTER window (the configuration of the new job legally differs): it keeps the newest
+   L'-1 values, which is the state a job with window L' would have reached on the same history - so, with
+   C19_runave_resumed_is_uninterrupted at L', it continues the series of an uninterrupted L'-run *)
+Theorem C19_runave_resumed_with_shorter_window : forall (T : Type) (O : NumOps T) (L L' s it0 : nat) (h : list (nat * T)),
+  (L' <= L)%nat ->
+  runave_resume L' (runave_final O L s it0 (r0 (T:=T)) None h) = runave_final O L' s it0 (r0 (T:=T)) None h.
+Proof. intros T O L L' s it0 h H. apply (runave_resume_shorter O L L' s it0 H h). Qed.
+Print Assumptions C19_runave_resumed_with_shorter_window.
+
 (* quaternion variables: the deviations are measured by cvm::quaternion::dist2, for which q and -q are the same
    rotation (unit quaternions: inner product in [-1, 1]) *)
 Theorem C19_runave_quaternion_metric : forall a b : list R, (-1 <= vdot Rops a b <= 1)%R ->
